@@ -14,6 +14,7 @@ ASSUME PrintT(ToJson([table |-> "dates10", rows |-> DateTable("1.0")]))
 ASSUME PrintT(ToJson([table |-> "dates11", rows |-> DateTable("1.1")]))
 ASSUME PrintT(ToJson([table |-> "strfacets", rows |-> StrTable]))
 ASSUME PrintT(ToJson([table |-> "digits", rows |-> DigTable]))
+ASSUME PrintT(ToJson([table |-> "whitespace", rows |-> WsTable]))
 ASSUME PrintT(ToJson([table |-> "patterns", rows |-> PatTable]))
 ASSUME PrintT(ToJson([table |-> "timezones", rows |-> TzTable]))
 ASSUME PrintT(ToJson([table |-> "times", rows |-> TimeTable]))
